@@ -54,7 +54,7 @@ def child (p : Pos) (seg : Seg) : Next :=
       match slotOf fs k with
       | .field n => .pos ⟨false, n, v⟩
       | .sect cfs => if selected fs kvs = some k then .pos ⟨false, .group false cfs, v⟩ else .unselected
-      | .none => .undefinedKey
+      | .none => if (appendSlot fs k).isSome then .data else .undefinedKey   -- `k+` of a list argument: its elements
   | .classArg _ _ cls, .dict kvs, .key k =>
     match assoc k kvs with
     | none => .absent
@@ -161,7 +161,7 @@ def foreignAt (q : Pos) (z : String) : Bool :=
   match q.node, q.val with
   | .group _ fs, .dict _ =>
     match slotOf fs z with
-    | .none => true
+    | .none => (appendSlot fs z).isNone       -- not `k+` of a list-typed argument `k` either
     | _ => false
   | .classArg _ _ cls, .dict kvs =>
     (classOf cls kvs).isSome && !(z = "class_path") && !(z = "init_args") && !(z = "dict_kwargs")
